@@ -1189,22 +1189,9 @@ def shard(ctx):
         cpu[name] = round(time.process_time() - t, 1)
         return ctx.failure is None
 
-    # 1. every Unicode scalar value (sliced here: building 1.1 M dicts in every shard is waste)
-    section("codepoint", lambda: ctx.sweep(
-        "codepoint", _codepoints(ctx), nontrivial=lambda c: c["cp"] >= 0x80,
-        classify=lambda c: ["codepoint:" + ("ascii" if c["cp"] < 0x80 else "2-byte" if c["cp"] < 0x800 else
-                                            "3-byte" if c["cp"] < 0x10000 else "4-byte")],
-        exhaustive_name="every Unicode scalar value (str + utf-8 bytes)", stride=False))
-    # 2. every encodable code point of the wide / narrow codecs: str and bytes agree
-    encs = WIDE_CODECS + NARROW_CODECS
-    section("cp_enc", lambda: ctx.sweep(
-        "cp_enc", cp_enc_cases(encs), nontrivial=lambda c: c["cp"] >= 0x80, classify=lambda c: [f"cp_enc:{c['enc']}"],
-        exhaustive_name="every code point encodable in " + "/".join(encs) + " with length == width"))
-    # 3. every 1- and 2-byte sequence
-    b2 = ["euc-jp", "gbk", "iso8859-1"] + (["big5", "euc-kr"] if thorough else [])
-    section("bytes2", lambda: ctx.sweep(
-        "bytes2", bytes2_cases(b2), nontrivial=_bytes2_nt, classify=_bytes2_class,
-        exhaustive_name="every 1- and 2-byte sequence under " + "/".join(b2)))
+    # The cheap sections (each <= ~2 CPU s per shard) run first, the three big exhaustive sweeps after them and the
+    # Hypothesis campaigns last: on an overloaded machine the wall-clock cap then cuts into one large sweep
+    # instead of silently skipping several small complete ones.
     # 4. every short string over the class representatives
     max_len = ctx.scale(4, 5)
     section("short", lambda: ctx.sweep(
@@ -1229,6 +1216,22 @@ def shard(ctx):
     section("total", lambda: ctx.sweep(
         "total", total_cases(), classify=lambda c: ["total:utf8-above-U+10FFFF"],
         exhaustive_name="boundary 4-byte forms above U+10FFFF in 9 contexts (totality only)"))
+    # 1. every Unicode scalar value (sliced here: building 1.1 M dicts in every shard is waste)
+    section("codepoint", lambda: ctx.sweep(
+        "codepoint", _codepoints(ctx), nontrivial=lambda c: c["cp"] >= 0x80,
+        classify=lambda c: ["codepoint:" + ("ascii" if c["cp"] < 0x80 else "2-byte" if c["cp"] < 0x800 else
+                                            "3-byte" if c["cp"] < 0x10000 else "4-byte")],
+        exhaustive_name="every Unicode scalar value (str + utf-8 bytes)", stride=False))
+    # 2. every encodable code point of the wide / narrow codecs: str and bytes agree
+    encs = WIDE_CODECS + NARROW_CODECS
+    section("cp_enc", lambda: ctx.sweep(
+        "cp_enc", cp_enc_cases(encs), nontrivial=lambda c: c["cp"] >= 0x80, classify=lambda c: [f"cp_enc:{c['enc']}"],
+        exhaustive_name="every code point encodable in " + "/".join(encs) + " with length == width"))
+    # 3. every 1- and 2-byte sequence
+    b2 = ["euc-jp", "gbk", "iso8859-1"] + (["big5", "euc-kr"] if thorough else [])
+    section("bytes2", lambda: ctx.sweep(
+        "bytes2", bytes2_cases(b2), nontrivial=_bytes2_nt, classify=_bytes2_class,
+        exhaustive_name="every 1- and 2-byte sequence under " + "/".join(b2)))
     # 6. longer strings
     section("long", lambda: ctx.given("long", _long_case, ctx.scale(250, 4000), nontrivial=_string_nt,
                                       classify=_string_class))
